@@ -5,7 +5,7 @@ cd "$(dirname "$0")"
 export GOFLAGS=-mod=mod GOPROXY=off GOSUMDB=off GOTOOLCHAIN=local CGO_ENABLED=0
 mkdir -p .work/bin evidence
 (cd tools/gofacts && go build -o ../../.work/bin/gofacts .)
-.work/bin/gofacts -repo "${VERIF_REPO:-/repo}" -out lean/Orda/Gen/Generated.lean -props properties.jsonl -shape-out lean/Orda/Gen/Shape.lean -shape-json .work/shape.json
+.work/bin/gofacts -repo "${VERIF_REPO:-/repo}" -out lean/Orda/Gen/Generated.lean -props properties.jsonl -shape-out lean/Orda/Gen/Shape.lean -facts2-out lean/Orda/Gen/Facts2.lean -shape-json .work/shape.json
 (cd lean && lake build Orda ordamodel)
 (cd harness && go build -tags verif -o ../.work/bin/ordadrive ./cmd/ordadrive)
 echo setup done
